@@ -4,6 +4,7 @@ A *leg* is {"ops": [...], "opts": {...}}.  `run_leg` executes it in the current 
 a JSON-able result: per-op outcomes, observations, in-leg oracle violations, event-log digest, counters.
 """
 import errno
+import gc
 import hashlib
 import json
 import sys
@@ -337,6 +338,7 @@ class World(object):
     def run(self, ops):
         for i, op in enumerate(ops):
             self.current_opi = i
+            gc.collect()
             name = op["op"]
             fn = getattr(self, "op_" + name, None)
             if fn is None:
@@ -1047,6 +1049,7 @@ class World(object):
             h.update(repr(ev).encode())
         h.update(self.stream.h.hexdigest().encode())
         return {"outcomes": self.outcomes, "viol": self.viol, "digest": h.hexdigest(),
+                "events": [list(ev) for ev in self.events] if self.opts.get("keep_events") else None,
                 "nevents": len(self.events), "faults": dict(self.faults), "notes": dict(self.notes),
                 "reach": dict(self.reach), "obs": self.obs, "residuals": self.residuals,
                 "stdout_lines": self.stream.lines, "stdout_digest": self.stream.h.hexdigest(),
@@ -1059,6 +1062,12 @@ def run_leg(leg):
     env.bootstrap()
     CTL.reset()
     env.set_mosek_present(False)
+    # The cyclic collector is a scheduler of its own: when it runs depends on allocation counters inherited from
+    # whatever the forking process did before, and a collection that starts while an injected KeyboardInterrupt is
+    # pending swallows it ("Exception ignored in garbage collection").  It therefore goes behind a seam: automatic
+    # collection is off during a leg, everything inherited is frozen, and the interpreter collects at op boundaries.
+    gc.disable()
+    gc.freeze()
     world = World(leg.get("opts"))
     install_cvxpy_seam(world)
     world.install_creation_hooks()
